@@ -51,8 +51,9 @@ def grammar_model(c):
         c.tool_error(f"MCGrammar {cfg}: {r.violated or r.error_text} {r.raw_tail[-600:]}")
     d, nd = replay_model_cases(c, gz, "bfs")
     # long sequences: seeded simulation of the same spec
-    nsim, depth = (300, 14) if c.quick else (6000, 16)
-    s, sgz, sn = run_tlc_stream("pgrammar", "MCGrammar", "MCGrammar_sim.cfg", "CASE", workers=1, timeout=3000, lib="events", cache_key="sim",
+    # (thorough: 1 500 walks; 6 000 did not fit into the time limit when other checks share the machine - about one walk per second)
+    nsim, depth = (300, 14) if c.quick else (1500, 16)
+    s, sgz, sn = run_tlc_stream("pgrammar", "MCGrammar", "MCGrammar_sim.cfg", "CASE", workers=1, timeout=6000, lib="events", cache_key="sim",
                                 simulate=nsim, depth=depth, seed=c.seed)
     if not s.ok:
         c.tool_error(f"MCGrammar simulation: {s.violated or s.error_text} {s.raw_tail[-600:]}")
